@@ -14,6 +14,7 @@ from dsim.kernel import Violations
 from models.usb2_wire import gen_idle_data
 from models.usb2 import UTMIHost, token_packet
 from models import streams_usb2 as su
+from models.usb2_ctrl import hs_handshake, HS_HANDSHAKE_CYCLES
 from engines.usb2_device import device_bench, IDLE_INIT
 
 PROPERTY = "C11"
@@ -30,7 +31,7 @@ RULES = {
 }
 PROBES = ["retry_after_missing_ack", "retry_after_garbled_ack", "zlp_sent", "zlp_retried", "nak_seen", "short_by_flush",
           "full_packet_without_last", "foreign_ack_while_unacked", "token_other_ep_while_unacked", "txready_stalled_runs",
-          "v2_runs", "dup_discarded_by_host"]
+          "v2_runs", "dup_discarded_by_host", "high_speed_runs"]
 META = {
     "components_real": ["USBDevice", "USBStreamInEndpoint", "USBInTransferManager", "USBTokenDetector", "USBHandshakeDetector",
                         "USBDataPacketGenerator", "USBDataPacketCRC", "USBInterpacketTimer", "USBEndpointMultiplexer"],
@@ -79,6 +80,9 @@ def gen(rng, tier, index):
                                                                        ["list", [rng.getrandbits(1) | (i == 0) for i in range(7)]]]),
         "transfers": transfers, "flush": flush, "final_flush": final_flush,
     }
+    if variant == "V2" and index % 8 == 3 and (index // 48) % 12 == 0:
+        # a few runs at high speed: the device is first taken through a real bus reset + chirp handshake (inter-packet gap 1 cycle)
+        cfg["high_speed"] = True
     packets = sum((len(t["data"]) // 2) // mps + 1 for t in transfers)
     nops = rng.randint(2, 4 + 3 * packets)
     ops = []
@@ -159,7 +163,7 @@ def run(scn):
     bench = device_bench(dev_cfg(variant, mps))
     init = dict(IDLE_INIT)
     if variant == "V2":
-        init["full_speed_only"] = 1
+        init["full_speed_only"] = 0 if cfg.get("high_speed") else 1
     viol = Violations()
     probes = {p: 0 for p in PROBES}
     ctx = su.HostCtx(variant, turn=cfg["turn"])
@@ -177,6 +181,9 @@ def run(scn):
 
     def script(h):
         yield from h.idle(4)
+        if cfg.get("high_speed"):
+            yield from hs_handshake(h)
+            probes["high_speed_runs"] += 1
         unacked = False
         for op in ops:
             k = op["op"]
@@ -226,7 +233,7 @@ def run(scn):
     host = UTMIHost(script, idle_data=cfg.get("idle_data"), byte_period=cfg["byte_period"], pre=cfg["pre"], post=cfg["post"], txready=txr)
     stall = 1 if txr == "always" else 3
     per_txn = 12 * cfg["byte_period"] + (mps + 6) * stall + 2 * ctx.timeout + 4 * ctx.turn + 40
-    max_cycles = 1000 + sum(op.get("n", 0) for op in ops) + (len(ops) + 2 * drain_budget) * per_txn \
+    max_cycles = (HS_HANDSHAKE_CYCLES if cfg.get("high_speed") else 0) + 1000 + sum(op.get("n", 0) for op in ops) + (len(ops) + 2 * drain_budget) * per_txn \
         + 2 * sum(t["pre"] + (len(t["data"]) // 2) * (1 + max(t["gaps"])) for t in cfg["transfers"])
     log = bench.run([host, prod], max_cycles, init=init)
     if not host._done:
